@@ -255,8 +255,13 @@ def d2_cellwise(chk, repo):
             want = v.spec("[self.array[..., i] for i in range(self.nvdim)] + [o.array[..., i] for i in range(o.nvdim)]",
                           env={"o": other})
             ok = v.eq(lst, want)
+        elif c and c[0] == "np.concatenate" and "axis" in c[2] and is_const(v.ctx, c[2]["axis"], -1) and c[1]:
+            # both arrays have shape (*n, nvdim) on the same mesh (verified schema; the mesh test precedes): joining them along
+            # the last axis IS the stack of self's components followed by other's
+            ok = any(v.eq(c[1][0], v.spec(t_, env={"o": other})) for t_ in ("(self.array, o.array)", "[self.array, o.array]"))
         chk.ob("field.Field.__lshift__::value", ok, "C03.D2",
-               f"value={v.show(val)}; expected np.stack(self's components then other's components, axis=-1)", v.f, r)
+               f"value={v.show(val)}; expected np.stack(self's components then other's components, axis=-1) or the two arrays "
+               "joined along the last axis", v.f, r)
         nv = a.get("nvdim")
         chk.ob("field.Field.__lshift__::mesh", v.eq(a.get("mesh"), v.spec("self.mesh")), "C03.D2",
                f"mesh={v.show(a.get('mesh'))}", v.f, r)
@@ -767,7 +772,13 @@ def d8_conditions(chk, repo):
             t = w.ev.term(r.value, at=r)
             h = w.ctx.head_of(t)
             if h and h[0] == "binop" and h[1] == "LShift":
-                got.append((r, t))
+                # a helper that wraps the operand returns one of the two fields: one alternative per kind of operand
+                a_, b_ = w.ctx.args_of(t)
+                alts = [(x, y) for x in phi_members(w.ctx, a_) for y in phi_members(w.ctx, b_)]
+                if len(alts) > 1:
+                    got.extend((r, w.spec("x << y", env={"x": x, "y": y})) for x, y in alts)
+                else:
+                    got.append((r, t))
         wants = [w.spec(x) for x in specs]
         for r, t in got:
             chk.ob(f"{q}::wraps-plain-operand", any(w.eq(t, x) for x in wants), "C03.D8",
